@@ -206,6 +206,7 @@ pub fn run(o: &Opts) {
       }
     }
   }
+  cli_projects(o, &mut out, &mut rng);
   out.finish("sources of 16 languages assembled from single-line statements (calls matched by 1-3 rules, two rules overlapping on the same nodes, several findings per line) with 0-2 own-line and optional trailing \
               `ast-grep-ignore` comments (no id list, one id, several ids with irregular blanks, unknown ids, plain comments): CombinedScan findings and unused-suppression reports against a line-based expectation \
               computed from the generator's record of the comments (direct oracle) and against the model's scan on the dumped tree (tie). non-trivial = the source has a suppression comment");
@@ -222,5 +223,106 @@ fn gen_comment(rng: &mut Rng, cmt: &str) -> (String, Option<Option<Vec<String>>>
     5 => (format!("{cmt}ast-grep-ignore:rc ,  ra"), Some(Some(vec!["rc".into(), "ra".into()]))),
     6 => (format!("{cmt} ast-grep-ignore: zz"), Some(Some(vec!["zz".into()]))),
     _ => (format!("{cmt} ast-grep-ignore: rc"), Some(Some(vec!["rc".into()]))),
+  }
+}
+
+
+/// The same contract through `sg scan` on a project: rules restricted by `files:` / `ignores:` globs, files on
+/// which some, all or NO rule runs, own-line suppression comments (blank or with ids) before statements.
+/// Expected, per file and per line, from the property text: a finding is silenced iff a comment governs its line
+/// and names its rule or nothing; a comment is reported unused iff it silenced nothing — also in a file on which
+/// no rule runs at all.
+fn cli_projects(o: &Opts, out: &mut Out, rng: &mut Rng) {
+  use crate::cli::{fresh_dir, json_lines, sg};
+  let rounds = if o.thorough { 12 } else { 4 };
+  for round in 0..rounds {
+    let p = fresh_dir(&o.out, &format!("proj_{round}"));
+    std::fs::create_dir_all(p.join("rules")).unwrap();
+    std::fs::write(p.join("sgconfig.yml"), "ruleDirs: [rules]\n").unwrap();
+    // rules: (id, function name matched, files globs, ignores globs)
+    let rules: Vec<(&str, &str, Option<&str>, Option<&str>)> = vec![
+      ("no-foo", "foo", Some("src/**"), None),
+      ("no-bar", "bar", None, Some("lib/**")),
+      ("no-baz", "baz", Some("src/deep/**"), None),
+    ];
+    for (id, f, files, ignores) in &rules {
+      let mut y = format!("id: {id}\nlanguage: TypeScript\nseverity: warning\nmessage: no {f}\nrule:\n  pattern: {f}($$$A)\n");
+      if let Some(g) = files {
+        y.push_str(&format!("files: ['{g}']\n"));
+      }
+      if let Some(g) = ignores {
+        y.push_str(&format!("ignores: ['{g}']\n"));
+      }
+      std::fs::write(p.join(format!("rules/{id}.yml")), y).unwrap();
+    }
+    let applies = |id: &str, path: &str| -> bool {
+      match id {
+        "no-foo" => path.starts_with("src/"),
+        "no-bar" => !path.starts_with("lib/"),
+        _ => path.starts_with("src/deep/"),
+      }
+    };
+    let paths = ["src/a.ts", "src/deep/b.ts", "lib/c.ts", "other/d.ts", "lib/inner/e.ts"];
+    let mut want: Vec<(String, usize, String)> = vec![]; // (file, line, rule id)
+    for path in paths {
+      let mut text = String::new();
+      let mut line = 0usize;
+      for _ in 0..(3 + rng.below(5)) {
+        // optional own-line suppression comment
+        let sup: Option<Option<Vec<&str>>> = match rng.below(4) {
+          0 => Some(None),
+          1 => Some(Some(vec![*rng.pick(&["no-foo", "no-bar", "no-baz"])])),
+          2 => Some(Some(vec!["no-foo", "no-bar"])),
+          _ => None,
+        };
+        let sup_line = line;
+        if let Some(s) = &sup {
+          match s {
+            None => text.push_str("// ast-grep-ignore\n"),
+            Some(ids) => text.push_str(&format!("// ast-grep-ignore: {}\n", ids.join(", "))),
+          }
+          line += 1;
+        }
+        // a statement with 0-2 findings
+        let calls: Vec<&str> = match rng.below(5) { 0 => vec!["foo"], 1 => vec!["bar"], 2 => vec!["foo", "bar"], 3 => vec!["baz"], _ => vec![] };
+        let stmt = if calls.is_empty() { "qux(0);".to_string() } else { calls.iter().map(|c| format!("{c}(1);")).collect::<Vec<_>>().join(" ") };
+        text.push_str(&stmt);
+        text.push('\n');
+        let mut silenced_any = false;
+        for c in &calls {
+          let id = format!("no-{c}");
+          if !applies(&id, path) {
+            continue;
+          }
+          let silenced = match &sup { Some(None) => true, Some(Some(ids)) => ids.contains(&id.as_str()), None => false };
+          if silenced {
+            silenced_any = true;
+          } else {
+            want.push((path.to_string(), line, id));
+          }
+        }
+        if sup.is_some() && !silenced_any {
+          want.push((path.to_string(), sup_line, "unused-suppression".into()));
+        }
+        line += 1;
+      }
+      let fp = p.join(path);
+      std::fs::create_dir_all(fp.parent().unwrap()).unwrap();
+      std::fs::write(fp, text).unwrap();
+    }
+    let r = sg(&p, &["scan", "--json=stream"], None, 60);
+    out.checked();
+    out.count("cli-project:scans");
+    let mut got: Vec<(String, usize, String)> = json_lines(&r.stdout).unwrap_or_default().iter().map(|v| (
+      v["file"].as_str().unwrap_or("").trim_start_matches("./").to_string(), v["range"]["start"]["line"].as_u64().unwrap_or(0) as usize, v["ruleId"].as_str().unwrap_or("").to_string())).collect();
+    got.sort();
+    want.sort();
+    out.nontrivial(&format!("{want:?}"));
+    if r.timed_out || got != want {
+      let miss: Vec<_> = want.iter().filter(|w| !got.contains(w)).take(5).collect();
+      let extra: Vec<_> = got.iter().filter(|g| !want.contains(g)).take(5).collect();
+      out.oracle_fail("", &format!("sg scan on a project with rules restricted by files/ignores: {} findings reported, {} expected from the comments; missing {:?}; unexpected {:?}", got.len(), want.len(), miss, extra),
+        json!({"stream": "c14-cli", "dir": p.to_string_lossy(), "stdout": r.stdout.chars().take(600).collect::<String>()}));
+    }
   }
 }
